@@ -47,6 +47,12 @@ func (a *application) start(mode gen.ApplicationMode, options gen.ApplicationOpt
 		appEnv[k] = v
 	}
 
+	// per-run state must be in place before the first member can terminate:
+	// application.terminate reads the mode, the reason and the channel
+	a.mode = mode
+	a.reason = nil
+	a.stopped = make(chan struct{})
+
 	// start items
 	for _, item := range a.spec.Group {
 		opts := gen.ProcessOptionsExtra{
@@ -75,9 +81,7 @@ func (a *application) start(mode gen.ApplicationMode, options gen.ApplicationOpt
 		a.group.Store(pid, true)
 	}
 
-	a.stopped = make(chan struct{})
 	a.node.log.Info("application %s (%s) started", a.spec.Name, a.mode)
-	a.mode = mode
 	a.parent = options.CorePID.Node
 
 	a.started = time.Now().Unix()
